@@ -1161,3 +1161,46 @@ def run_from_dict_k(univ, setup, ti, p, items, k, fresh, fn="name"):
         return run, (f"from_dict with calc_data_id raising at invocation {k} behaves differently from the poisoned-item run: "
                      f"{mine[0]} vs {run.obs[-1][0]}" + ("" if mine[1] != run.obs[-1][1] else " (same state)"))
     return run, None
+
+
+# ---------------------------------------------------------------------------
+# (b4) the call ORDER of the sort key and of the filter predicate: FaultIndex.sort_calls / filter_calls
+# (which "the k-th invocation" of the model refers to) against the invocations recorded on the implementation
+# ---------------------------------------------------------------------------
+def call_order_check(univ, setup, ops):
+    """ops: sort / filter ops on tree 0 of the world built by `setup`.  Returns (message or None, n compared)."""
+    import json as _json
+    import re as _re
+    base = replay13({"univ": univ, "ops": setup}, keep_world=True)
+    w = base.world
+    terms, impl = [], []
+    for op in ops:
+        rec = _clean_calls(univ, setup, op)
+        t = w.trees[op[1]]
+        if op[0] == "sort":
+            _, ti, p, keyfn, reverse, deep = op
+            tbl = (keyfn or {}).get("tbl", {})
+            ents = []
+            for nd in mut.tree_nodes(t):
+                r = w.rel(nd)
+                kv = tbl.get(str(r), nd.name)
+                ents.append(f"({r}%nat, {H.coq_opt(kv, H.coq_text)})")
+            fn = f"sort_calls {H.coq_list(ents)} {H.coq_bool(reverse)} {H.coq_bool(deep)}"
+            impl.append(rec["key"])
+        else:
+            _, ti, p, verd = op
+            ents = [f"({w.rel(nd)}%nat, {mut.coq_verdict(verd.get(str(w.rel(nd)), 'T'))})" for nd in mut.tree_nodes(t)]
+            fn = f"filter_calls {H.coq_list(ents)}"
+            impl.append(rec["pred"])
+        terms.append(f"(match get_tree w {ti}%nat with Some t => match children_of {p}%nat (forest_of t) with Some ch => {fn} ch "
+                     f"| None => [] end | None => [] end)")
+    term = f"let w := run_chk {base.coq} empty_world in {H.coq_list(terms)}"
+    out = H.eval_in_coq("CaseMut FaultIndex", term, tag="order")
+    m = _re.search(r"=\s*(\[.*\])\s*:\s*list \(list nat\)", out, _re.S)
+    if not m:
+        return f"call order: cannot evaluate the model ({out[-300:]})", 0
+    model = _json.loads(m.group(1).replace("%nat", "").replace(";", ","))
+    for op, a, b in zip(ops, impl, model):
+        if a != b:
+            return f"call order of {op[0]} {op[2:]}: implementation {a}, model {b}", len(ops)
+    return None, len(ops)
